@@ -1319,6 +1319,203 @@ theorem proj_runFrom (cfg : Cfg) (L V : Nat) (hL : ∀ w, cfg.lockName w = L) (h
 
 end DistN
 
+/-! ## Several sinks on one file system -/
+section Tables
+variable {κ β : Type} [BEq κ] [LawfulBEq κ]
+
+theorem lookup_filter_key_self (l : List (κ × β)) (k : κ) :
+    (l.filter (fun q => !(q.1 == k))).lookup k = none := by
+  induction l with
+  | nil => rfl
+  | cons x l ih =>
+    obtain ⟨a, v⟩ := x
+    cases ha : (a == k) with
+    | true => simp [List.filter_cons, ha, ih]
+    | false =>
+      have hka : (k == a) = false := by
+        cases h : (k == a) with
+        | false => rfl
+        | true => have := eq_of_beq h; subst this; simp at ha
+      simp [List.filter_cons, ha, List.lookup_cons, hka, ih]
+
+theorem lookup_filter_key_other (l : List (κ × β)) (k : κ) {k' : κ} (h : (k' == k) = false) :
+    (l.filter (fun q => !(q.1 == k))).lookup k' = l.lookup k' := by
+  induction l with
+  | nil => rfl
+  | cons x l ih =>
+    obtain ⟨a, v⟩ := x
+    cases ha : (a == k) with
+    | true =>
+      have hak := eq_of_beq ha
+      subst hak
+      simp [List.filter_cons, List.lookup_cons, h, ih]
+    | false =>
+      simp only [List.filter_cons, ha, Bool.not_false, if_true, List.lookup_cons, ih]
+
+theorem lookup_tblSet_self (k : κ) (v : β) (l : List (κ × β)) : (tblSet k v l).lookup k = some v := by
+  simp [tblSet, List.lookup_cons]
+
+theorem lookup_tblSet_other (k : κ) (v : β) (l : List (κ × β)) {k' : κ} (h : k' ≠ k) :
+    (tblSet k v l).lookup k' = l.lookup k' := by
+  have hb : (k' == k) = false := by
+    cases hh : (k' == k) with
+    | false => rfl
+    | true => exact absurd (eq_of_beq hh) h
+  simp only [tblSet, List.lookup_cons, hb]
+  exact lookup_filter_key_other l k hb
+
+theorem lookup_tblErase_self (k : κ) (l : List (κ × β)) : (tblErase k l).lookup k = none :=
+  lookup_filter_key_self l k
+
+theorem lookup_tblErase_other (k : κ) (l : List (κ × β)) {k' : κ} (h : k' ≠ k) :
+    (tblErase k l).lookup k' = l.lookup k' := by
+  have hb : (k' == k) = false := by
+    cases hh : (k' == k) with
+    | false => rfl
+    | true => exact absurd (eq_of_beq hh) h
+  exact lookup_filter_key_other l k hb
+
+end Tables
+
+/-- a sink state that can be a view of a file system: no part files without a directory -/
+def Sink.WF (s : Sink) : Prop := s.dirExists = false → s.parts = []
+
+theorem FS.view_wf (fs : FS) (c : SinkCfg) : (fs.view c).WF := by
+  intro h
+  simp only [FS.view] at h ⊢
+  cases hl : fs.pdirs.lookup c.pkey with
+  | none => rfl
+  | some ps => simp [hl] at h
+
+theorem Sink.write_wf (s : Sink) (w : Nat × Bytes) : (s.write w).WF := by
+  intro h; simp [Sink.write] at h
+
+theorem Sink.appendParts_dir (fixed keep : Bool) :
+    ∀ (ps : List Nat) (s : Sink), (Sink.appendParts fixed keep s ps).1.dirExists = s.dirExists := by
+  intro ps
+  induction ps with
+  | nil => intro s; rfl
+  | cons p ps ih =>
+    intro s
+    simp only [Sink.appendParts]
+    cases hl : s.lookup p with
+    | none => rfl
+    | some d =>
+      simp only []
+      split
+      · rfl
+      · rw [ih]; cases keep <;> simp [Sink.unlink]
+
+theorem Sink.finalise_wf (fixed : Bool) (s : Sink) (hw : s.WF) (ps : List Nat) (keep : Bool) :
+    (Sink.finalise fixed s ps keep).1.WF := by
+  cases ps with
+  | nil => exact hw
+  | cons first rest =>
+    simp only [Sink.finalise]
+    cases hl : s.lookup first with
+    | none => exact hw
+    | some d =>
+      simp only []
+      -- the directory exists (it holds the first part)
+      have hde : s.dirExists = true := by
+        cases hd : s.dirExists with
+        | true => rfl
+        | false => have := hw hd; simp [Sink.lookup, this] at hl
+      have hdir := Sink.appendParts_dir fixed keep rest { (s.unlink first) with dst := some d }
+      generalize hr : Sink.appendParts fixed keep { (s.unlink first) with dst := some d } rest = r at hdir
+      obtain ⟨s', e⟩ := r
+      have hd' : s'.dirExists = true := by simpa [Sink.unlink, hde] using hdir
+      cases e with
+      | some e => intro h; simp [hd'] at h
+      | none =>
+        simp only []
+        cases keep with
+        | true => intro h; simp [hd'] at h
+        | false =>
+          simp only [Bool.false_eq_true, if_false]
+          split
+          · rename_i hemp
+            intro _
+            simpa using hemp
+          · intro h; simp [hd'] at h
+
+theorem Sink.apply_wf (s : Sink) (hw : s.WF) (op : SinkOp) : (s.apply op).1.WF := by
+  cases op with
+  | write w => exact Sink.write_wf s w
+  | finalise ps keep => exact Sink.finalise_wf true s hw ps keep
+
+theorem FS.view_store_self (fs : FS) (c : SinkCfg) (s : Sink) (hw : s.WF) : (fs.store c s).view c = s := by
+  obtain ⟨de, parts, dst⟩ := s
+  cases de with
+  | true =>
+    cases dst with
+    | none =>
+      simp only [FS.view, FS.store, if_true]
+      rw [lookup_tblSet_self, lookup_tblErase_self]; rfl
+    | some b =>
+      simp only [FS.view, FS.store, if_true]
+      rw [lookup_tblSet_self, lookup_tblSet_self]; rfl
+  | false =>
+    have hp : parts = [] := hw rfl
+    subst hp
+    cases dst with
+    | none =>
+      simp only [FS.view, FS.store, Bool.false_eq_true, if_false]
+      rw [lookup_tblErase_self, lookup_tblErase_self]; rfl
+    | some b =>
+      simp only [FS.view, FS.store, Bool.false_eq_true, if_false]
+      rw [lookup_tblErase_self, lookup_tblSet_self]; rfl
+
+theorem FS.view_store_other (fs : FS) (c c' : SinkCfg) (s : Sink)
+    (hp : c'.pkey ≠ c.pkey) (hd : c'.dkey ≠ c.dkey) : (fs.store c s).view c' = fs.view c' := by
+  obtain ⟨de, parts, dst⟩ := s
+  cases de <;> cases dst <;>
+    simp only [FS.view, FS.store, Bool.false_eq_true, if_false, if_true] <;>
+    simp only [lookup_tblSet_other _ _ _ hp, lookup_tblErase_other _ _ hp, lookup_tblSet_other _ _ _ hd,
+      lookup_tblErase_other _ _ hd]
+
+theorem FS.apply_eq (fs : FS) (c : SinkCfg) (op : SinkOp) :
+    fs.apply c op = (fs.store c ((fs.view c).apply op).1, ((fs.view c).apply op).2) := by
+  cases op <;> rfl
+
+/-- the operations of sink `i` in an interleaved run -/
+def ownOps (i : Nat) (ops : List (Nat × SinkOp)) : List SinkOp := (ops.filter (fun o => o.1 == i)).map (·.2)
+
+/-- a sink alone: its operations applied to its own view -/
+def Sink.runOps (s : Sink) (ops : List SinkOp) : Sink := ops.foldl (fun s o => (s.apply o).1) s
+
+theorem FS.run_view (cfgs : List SinkCfg)
+    (hdist : ∀ (i j : Nat) (ci cj : SinkCfg), cfgs[i]? = some ci → cfgs[j]? = some cj → i ≠ j →
+      ci.pkey ≠ cj.pkey ∧ ci.dkey ≠ cj.dkey)
+    (i : Nat) (c : SinkCfg) (hc : cfgs[i]? = some c) :
+    ∀ (ops : List (Nat × SinkOp)) (fs : FS),
+      (FS.run cfgs fs ops).1.view c = Sink.runOps (fs.view c) (ownOps i ops) := by
+  intro ops
+  induction ops with
+  | nil => intro fs; rfl
+  | cons o ops ih =>
+    intro fs
+    obtain ⟨j, op⟩ := o
+    simp only [FS.run]
+    by_cases hji : j = i
+    · subst hji
+      simp only [hc, ownOps, List.filter_cons, beq_self_eq_true, if_true, List.map_cons, Sink.runOps,
+        List.foldl_cons]
+      rw [ih]
+      rw [FS.apply_eq]
+      simp only [ownOps, Sink.runOps]
+      rw [FS.view_store_self _ _ _ (Sink.apply_wf _ (FS.view_wf fs c) op)]
+    · have hne : (j == i) = false := by simpa using hji
+      simp only [ownOps, List.filter_cons, hne, Bool.false_eq_true, if_false]
+      cases hj : cfgs[j]? with
+      | none => simp only []; exact ih fs
+      | some cj =>
+        simp only []
+        rw [ih]
+        have hk := hdist i j c cj hc hj (fun (e : i = j) => hji e.symm)
+        rw [FS.apply_eq, FS.view_store_other _ _ _ _ hk.1 hk.2]
+        rfl
+
 /-! ## One upload object over time -/
 namespace Seq
 
